@@ -93,6 +93,27 @@ Proof.
   eapply check_passes_acyclic; [|exact H]. apply prepare_no_self.
 Qed.
 
+Lemma sort_layers_total L : exists NL, sort_layers node_cmp L = Ok NL.
+Proof.
+  induction L as [|l r [NL IH]]; simpl; [eauto|].
+  destruct (psort_total node_cmp (fun a b => ltac:(discriminate)) (concat l)) as [s [E _]]. rewrite E, IH. eauto.
+Qed.
+
+(* a graph with a cycle never passes: the call ends in an error, and not because the model ran out of fuel *)
+Lemma cycle_is_reported g0 :
+  ~ acyclic (prepare g0) -> exists e, check_cycles g0 = Err e /\ e <> OutOfFuel.
+Proof.
+  intros Hc. destruct (check_cycles g0) as [NL|e] eqn:E.
+  - exfalso. apply Hc. eapply check_cycles_passes_acyclic; eauto.
+  - exists e. split; [reflexivity|]. intros ->.
+    unfold check_cycles, topo_layers, topo_layers_with in E.
+    destruct (scc (prepare g0)) as [cs|e1] eqn:E1.
+    + destruct (comp_layers true (prepare g0) cs) as [L|e2] eqn:E2.
+      * destruct (sort_layers_total L) as [NL E3]. rewrite E3 in E. discriminate.
+      * inversion E. subst. eapply comp_layers_fuel; eauto.
+    + inversion E. subst. eapply scc_fuel; eauto.
+Qed.
+
 (* ------------------------------------------------------------ the walk from the top, in full *)
 Lemma walk_top_full w pins top fuel es :
   length w < fuel -> node_table w top = Some es ->
